@@ -365,6 +365,8 @@ MATERIALS = {
     "props_num": [("VM-props", {"density": 1.5, "molar_mass": 120.25}), ("VM-props2", {"density": 0.75})],
     "props_text": [("VM-ptext", {"form": "powder", "density": 2.1}), ("VM-ptext2", {"supplier": "lab B", "molar_mass": 60.5})],
     "props_int": [("VM-pint", {"batch_no": 5}), ("VM-pint2", {"cycles": 12, "density": 3.0})],
+    # legitimate but falsy values: every property falsy / falsy next to ordinary ones
+    "props_falsy": [("VM-pfalsy", {"porosity": 0.0, "hydrophobic": False, "cycles": 0}), ("VM-pfalsy2", {"swelling": 0.0, "form": "powder", "calcined": False})],
 }
 
 # model parameter sets (constructed, no fit): values with many digits, inside default bounds
